@@ -43,7 +43,7 @@ type caseRec struct {
 
 var tPrepare, tClose, tCase, tSnap, tNew vk.Counter
 
-var extGroups = map[string]bool{"header-batch": true, "deep-ahead": true, "restart": true}
+var extGroups = map[string]bool{"header-batch": true, "deep-ahead": true, "restart": true, "paged": true}
 
 type viol struct {
 	what string // stable first part of the key
